@@ -197,3 +197,31 @@ CHECKS["C05"] = {
         "proto.Clone = structural deep copy; anypb UnmarshalNew = injective in (type URL, payload bytes)",
     ],
 }
+
+# ---------------------------------------------------------------------------------------------------------------
+def _c20(cases, **kw):
+    out = []
+    for (k, ops, eps, lens) in cases:
+        g = {"harness": "VerifC20Cache", "params": {"k": k, "ops": ops, "eps": eps, "lens": lens, "typ": [0, 1, 2]}, "prune": 1000, "timeout_ms": 300000}
+        g.update(kw)
+        out.append(g)
+    return out
+
+CHECKS["C20"] = {
+    "pkg": "./app/eth2wrap",
+    "parallel": 8,
+    # (k, ops base-3 [0 request,1 reorg-invalidate,2 trim], eps bitmask [request i asks the later epoch], lens base-4 [number of indices of request i; 0 = all active])
+    "quick": _c20([(2, 0, 0, 5), (2, 0, 0, 9), (2, 0, 0, 6), (2, 0, 0, 4), (2, 0, 0, 1), (2, 0, 2, 5), (3, 3, 5, 17), (3, 6, 0, 17)]),
+    "thorough": _c20([(2, 0, e, l) for e in (0, 1, 2, 3) for l in (0, 1, 2, 4, 5, 6, 8, 9, 10, 12, 13, 14)]
+                     + [(3, 0, 0, l) for l in (21, 25, 37, 22, 41, 26)] + [(3, 3, e, 17) for e in (0, 1, 4, 5)] + [(3, 6, e, 17) for e in (0, 5)]
+                     + [(3, 1, 6, 20), (3, 2, 6, 20), (4, 3 + 0 * 27, 13, 1 + 16 + 64)], case_timeout_s=6000),
+    "bounds": {
+        "quick": "proposer, attester and sync-committee duties caches; 3 validators x 2 epochs, at most one duty per validator and epoch with symbolic presence and content, two table generations (reorg changes the later epoch); sequences of 2 requests (index-list lengths 0..2 concrete per case, the requested validators symbolic and distinct, same or different epochs) and request/invalidate/request, request/trim/request; private copies checked by object identity between successive answers",
+        "thorough": "all length/epoch combinations for 2 requests, selected 3-request sequences, invalidate/trim at other positions",
+    },
+    "outside": "concurrent callers (the cache takes its lock separately in fetch* and storeOrAmend*; sequences of whole calls are not a sound reduction there); validators with several duties in one epoch; duplicate indices in one request; metadata maps; more than 3 validators / 2 epochs",
+    "assumptions": [
+        "the beacon node is a harness implementation of the three duty calls that filters a symbolic assignment table by the requested indices (empty list = no filter) and never fails",
+        "sync.RWMutex modelled as a lock bit; metrics/logging are no-ops",
+    ],
+}
